@@ -160,7 +160,7 @@ def main(prop: str, tier: str, seed: int, replay: str | None = None) -> int:
     for fid, h in known_hits.items():
         lines.append(f"KNOWN-FINDING: property={prop} {fid}: {h['finding']['what']} (seen {h['n']}x this run)")
     if new:
-        rdir = os.path.join(core.VERIF_DIR, "replays", prop)
+        rdir = os.path.join(os.environ.get("VERIF_REPLAY_DIR") or os.path.join(core.VERIF_DIR, "replays"), prop)
         os.makedirs(rdir, exist_ok=True)
         seen_keys = set()
         first_path = None
@@ -238,6 +238,8 @@ def write_evidence(mod, prop, tier, seed, agg, known_hits, new, others, inconclu
         wall_s=round(wall, 2),
         violations=len(new),
     )
-    os.makedirs(os.path.join(core.VERIF_DIR, "evidence"), exist_ok=True)
-    with open(os.path.join(core.VERIF_DIR, "evidence", f"{prop}.json"), "w") as f:
+    # runs against a scratch tree (mutants, seeded changes) keep the committed evidence untouched
+    evdir = os.environ.get("VERIF_EVIDENCE_DIR") or os.path.join(core.VERIF_DIR, "evidence")
+    os.makedirs(evdir, exist_ok=True)
+    with open(os.path.join(evdir, f"{prop}.json"), "w") as f:
         json.dump(ev, f, indent=1, sort_keys=False)
